@@ -45,6 +45,11 @@ def scenario(rng, i):
         fault = {"op": "rmmanifest", "hist": h, "gen": g}
     else:
         fault = {"op": "rmchain", "hist": h}
+    if i % 9 == 4:
+        # the ascmhl folder emptied completely, the folder itself kept: the chain file of an existing ascmhl folder is missing (32)
+        for gg in range(1, count[h] + 1):
+            steps.append({"op": "rmmanifest", "hist": h, "gen": gg})
+        fault = {"op": "rmchain", "hist": h}
     steps.append(fault)
     files = gen.all_files(cur)
     for c in rng.sample(COMMANDS, rng.choice([3, 4, 8])):
@@ -59,7 +64,7 @@ def scenario(rng, i):
     return {"tree": tree, "steps": steps}
 
 
-RULE = ("histories of 1-4 generations, flat and nested to depth 3; exactly one fault per scenario: bit flip / insertion / deletion / truncation / appended newline at a "
+RULE = ("histories of 1-4 generations, flat and nested to depth 3; exactly one fault per scenario (one in nine: the ascmhl folder emptied completely, expected 32): bit flip / insertion / deletion / truncation / appended newline at a "
         "random position of ANY manifest of ANY history (root or nested, any generation; every other scenario restores the file's time stamps afterwards), removal of such a manifest, or removal of a chain file; then 3-8 of the "
         "history-reading commands (create, create -sf, verify, verify -dh, diff, info, info -sf, flatten) on the root; oracle: exit code 31 / 33 / 32 and an identical "
         "byte snapshot (type, bytes, mode, mtime) of the whole tree and of the flatten destination. Non-trivial: every scenario (each has a fault).")
